@@ -25,7 +25,7 @@ ELS = ["C", "H", "O", "N", "Zr", "Cu", "F", "S", "Cl", "Hf"]
 def cases(tier, seed):
     rng = np.random.default_rng([16, seed])
     n = 300 if tier == "quick" else 100000
-    out = [{"s": int(rng.integers(1 << 30)), "ids": ["inorder", "shuffled", "nonsequential", "strings"][j % 4],
+    out = [{"s": int(rng.integers(1 << 30)), "ids": ["inorder", "shuffled", "nonsequential", "strings", "case_variants"][j % 5],
             "bonds": ["none", "random", "reversed", "no_bondarray"][(j // 4) % 4], "n": [1, 2, 3, 5, 16, 40][(j // 16) % 6] if j % 3 == 0 else None}
            for j in range(n)]
     out.append({"repo_files": True, "s": 0})
@@ -56,6 +56,18 @@ def build(rng, case):
         ids = ["a%d" % (i + 1) for i in rng.permutation(n)]
     elif case["ids"] == "nonsequential":
         ids = ["a%d" % v for v in rng.choice(10 * n + 5, size=n, replace=False)]
+    elif case["ids"] == "case_variants":
+        # ids that differ only in letter case (PDB-style CA = alpha carbon vs Ca = calcium); XML ids are case-sensitive
+        stems = ["ca", "CA", "Ca", "cA", "zn", "ZN", "Zn", "a", "A", "ab", "AB", "aB", "Ab"]
+        ids = []
+        k = 0
+        while len(ids) < n:
+            for s_ in stems:
+                ids.append(s_ + (str(k) if k else ""))
+                if len(ids) == n:
+                    break
+            k += 1
+        ids = [ids[i] for i in rng.permutation(n)]
     else:
         pool = ["x", "atom-", "Zr_", "C", "n.", "q:"]
         ids = ["%s%d%s" % (pool[int(rng.integers(len(pool)))], k, "b" * int(rng.integers(3))) for k in rng.choice(1000, size=n, replace=False)]
@@ -197,7 +209,7 @@ def requirements(stats, tier):
     need = []
     if stats.get("loads_checked") < (1500 if tier == "quick" else 500000):
         need.append("too few loads observed: %d" % stats.get("loads_checked"))
-    if stats.nseen("id_scheme") < 4:
+    if stats.nseen("id_scheme") < 5:
         need.append("not all id schemes observed")
     if stats.get("documents_without_bonds") < 20:
         need.append("fewer than 20 bond-free documents")
